@@ -18,6 +18,7 @@ import (
 
 	"github.com/go-kid/ioc/app"
 	"github.com/go-kid/ioc/component_definition"
+	"github.com/go-kid/ioc/configure/loader"
 	"github.com/go-kid/ioc/container"
 	"github.com/go-kid/ioc/container/factory"
 	"github.com/go-kid/ioc/container/processors"
@@ -51,6 +52,7 @@ type EngScenario struct {
 	ROrder   []int      `json:"rorder"`   // the runner nodes in candidate iteration order (computed here from order)
 	All      bool       `json:"all"`      // finally look every pool component up through Factory.GetComponents(InterfaceType(Nd))
 	RawOrder bool       `json:"rawOrder"` // do not wrap the definition registry: candidates come in the real registry's own order
+	Conf     bool       `json:"conf"`     // the start has a configuration document (derived from the seed): the nodes' own value / prop / prefix points
 	KSeed    int64      `json:"kseed"`    // seed of the edge realisation (which field / tag form carries each edge); 0 = Seed.
 	// The realisation decides the declaration order of a holder's injection points, i.e. it is part of the component SET;
 	// permutations of one scenario (C10) keep it fixed and vary Seed / order / regOrder only.
@@ -103,6 +105,25 @@ type Nd interface{ NodeID() int }
 type base struct {
 	e  *env
 	id int
+	// configuration values of the node itself (C05: set before the before-initialisation callbacks; they are bound in the
+	// same container step that resolves the injection points, ahead of every dependency fetch, so also every early
+	// reference handed to a cycle partner is already configured)
+	Cfg  string `value:"${verif.cfg:cv}"`
+	CfgN int    `prop:"verif.num:7"`
+	CfgG cfgGrp `prefix:"verif.grp,required=false"`
+}
+
+type cfgGrp struct {
+	A int
+	B string
+}
+
+// cfgOK: the node's configuration values are exactly what this scenario's configuration (or the defaults) prescribe
+func (b *base) cfgOK() bool {
+	if b.e.sc.Conf {
+		return b.Cfg == "conf" && b.CfgN == 9 && b.CfgG == cfgGrp{3, "g"}
+	}
+	return b.Cfg == "cv" && b.CfgN == 7 && b.CfgG == cfgGrp{}
 }
 
 func (b *base) NodeID() int               { return b.id }
@@ -153,7 +174,11 @@ type reentry struct{ n int }
 
 func (e *env) cb(ev string, id int) error {
 	fail := e.sc.Fail[id-1] == ev
-	e.emit(ev, id, map[string]any{"ok": !fail})
+	x := map[string]any{"ok": !fail}
+	if c, ok := e.objs[id].(interface{ cfgOK() bool }); ok {
+		x["cfg"] = c.cfgOK()
+	}
+	e.emit(ev, id, x)
 	if fail {
 		return fmt.Errorf("injected failure %s n%d", ev, id)
 	}
@@ -528,6 +553,7 @@ func runEngScenario(sc *EngScenario) []map[string]any {
 		sc.KSeed = sc.Seed
 	}
 	rnd := rand.New(rand.NewSource(sc.KSeed))
+	sc.Conf = sc.Seed%2 == 1
 	if sc.Runners == nil {
 		sc.Runners = []int{}
 	}
@@ -667,8 +693,12 @@ func runEngScenario(sc *EngScenario) []map[string]any {
 				err = fmt.Errorf("PANIC %v", x)
 			}
 		}()
-		err = ap.Run(app.LogLevel(syslog.LvPanic), app.SetRegistry(&permSingles{support.NewRegistry(), sc.Seed}),
-			app.SetFactory(f), app.SetComponents(ordered...))
+		ops := []app.SettingOption{app.LogLevel(syslog.LvPanic), app.SetRegistry(&permSingles{support.NewRegistry(), sc.Seed}),
+			app.SetFactory(f), app.SetComponents(ordered...)}
+		if sc.Conf {
+			ops = append(ops, app.SetConfigLoader(loader.NewRawLoader([]byte("verif:\n  cfg: conf\n  num: 9\n  grp:\n    a: 3\n    b: g\n"))))
+		}
+		err = ap.Run(ops...)
 	}()
 	e.emit("runReturn", 0, map[string]any{"ok": err == nil, "panic": panicked})
 	if !e.aborted {
